@@ -94,11 +94,162 @@ theorem appLoop_after_sent (cfg : Cfg) (b : List Item) (p : PSt) (i : St) (hin :
         obtain ⟨a1, a2, a3, a4, a5⟩ := p
         simp only at hin hc; subst hin; subst hc; rfl
       rw [this]; exact ih p i hin hi hs hc
-    | closeNotify =>
-      simp only [appLoop, PSt.obs, hin, Option.map_some, hc]
-      have hl := lost_silent cfg i .lost (by simp [step] : (step cfg i .lost).lost = true → True) |> fun _ => (rfl : (step cfg i .lost).out = i.out)
-      simp [step]
+    | closeNotify => simp [appLoop, PSt.obs, hin, hc, step]
     | hs => simp [appLoop, PSt.obs, hc]
     | hsFinal => simp [appLoop, PSt.obs, hc]
     | bad => simp [appLoop, PSt.obs, hc]
+end Srv
+
+namespace Srv
+/-- the TCP side was closed because the inner protocol has answered -/
+def ClosedBySent (cfg : Cfg) (p : PSt) : Prop :=
+  p.tcpClosed = true ∧ ∃ i, p.inner = some i ∧ i.sent = true ∧ Inv cfg i
+
+theorem appLoop_apps_closed (cfg : Cfg) (a : List Item) (p : PSt)
+    (hinv : ∀ i, p.inner = some i → Inv cfg i ∧ TimeInv i ∧ ReqInv cfg i ∧ DoneInv i)
+    (h0 : p.tcpClosed = false ∨ ClosedBySent cfg p) (ha : a.all Item.isApp = true)
+    (hc : (appLoop cfg p a).tcpClosed = true) : ClosedBySent cfg (appLoop cfg p a) := by
+  induction a generalizing p with
+  | nil =>
+    simp only [appLoop] at hc ⊢
+    rcases h0 with h | h
+    · simp [h] at hc
+    · exact h
+  | cons it rest ih =>
+    cases it with
+    | app d =>
+      simp only [List.all_cons, Item.isApp, Bool.true_and] at ha
+      simp only [appLoop] at hc ⊢
+      cases hi : p.inner with
+      | none =>
+        simp only [hi] at hc ⊢
+        exact ih p hinv h0 ha hc
+      | some i =>
+        simp only [hi] at hc ⊢
+        have hall := feed_inv cfg (chunks recvSize d) i (hinv i hi)
+        have hj : Inv cfg (innerFeed cfg i d) := hall.1
+        refine ih _ ?_ ?_ ha hc
+        · intro j hj'
+          have : j = innerFeed cfg i d := by
+            unfold syncClosed at hj'; simp only at hj'
+            split at hj' <;> simp_all
+          subst this; exact hall
+        · by_cases hs : (innerFeed cfg i d).sent = true
+          · right
+            refine ⟨by simp [syncClosed, hs], innerFeed cfg i d, by simp [syncClosed, hs], hs, hj⟩
+          · rcases h0 with h | h
+            · left; simp [syncClosed, hs, h]
+            · obtain ⟨_, i', hi', hs', hinv'⟩ := h
+              rw [hi] at hi'; cases hi'
+              rw [innerFeed_sent cfg i d hinv' hs'] at hs
+              exact absurd hs' hs
+    | closeNotify => simp [Item.isApp] at ha
+    | hs => simp [Item.isApp] at ha
+    | hsFinal => simp [Item.isApp] at ha
+    | bad => simp [Item.isApp] at ha
+
+/-- two reads carrying application-phase items are observationally the same as one read carrying both -/
+theorem appRead_merge (cfg : Cfg) (p : PSt) (hp : PInv cfg p) (hd : p.hsDone = true) (a b : List Item) :
+    (pumpRead cfg (pumpRead cfg p a) b).obs = (pumpRead cfg p (a ++ b)).obs := by
+  by_cases hlc : p.lost = true ∨ p.tcpClosed = true
+  · have h1 : pumpRead cfg p a = p := by simp only [pumpRead]; rw [if_pos hlc]
+    have h2 : pumpRead cfg p (a ++ b) = p := by simp only [pumpRead]; rw [if_pos hlc]
+    have h3 : pumpRead cfg p b = p := by simp only [pumpRead]; rw [if_pos hlc]
+    rw [h1, h2, h3]
+  · have hl : p.lost = false := by cases h : p.lost <;> simp_all
+    have hc : p.tcpClosed = false := by cases h : p.tcpClosed <;> simp_all
+    have e1 : ∀ x, pumpRead cfg p x = appLoop cfg p x := by
+      intro x; simp only [pumpRead]; rw [if_neg hlc, if_pos hd]
+    rw [e1 a, e1 (a ++ b), appLoop_append]
+    have hd1 : (appLoop cfg p a).hsDone = true := by rw [appLoop_hsDone]; exact hd
+    have hl1 : (appLoop cfg p a).lost = false := by rw [appLoop_lost]; exact hl
+    by_cases ha : a.all Item.isApp = true
+    · rw [if_pos ha]
+      by_cases hc1 : (appLoop cfg p a).tcpClosed = true
+      · have hcl := appLoop_apps_closed cfg a p hp.innerInv (Or.inl hc) ha hc1
+        obtain ⟨_, i, hi, hs, hinv⟩ := hcl
+        have : pumpRead cfg (appLoop cfg p a) b = appLoop cfg p a := by
+          simp only [pumpRead]; rw [if_pos (Or.inr hc1)]
+        rw [this, appLoop_after_sent cfg b _ i hi hinv hs hc1]
+      · have : pumpRead cfg (appLoop cfg p a) b = appLoop cfg (appLoop cfg p a) b := by
+          simp only [pumpRead]; rw [if_neg (by simp [hl1, hc1]), if_pos hd1]
+        rw [this]
+    · rw [if_neg ha]
+      have hc1 := appLoop_term_closed cfg a p (by simpa using ha)
+      have : pumpRead cfg (appLoop cfg p a) b = appLoop cfg p a := by
+        simp only [pumpRead]; rw [if_pos (Or.inr hc1)]
+      rw [this]
+
+theorem go_lost (cfg : Cfg) (a : List Item) (p : PSt) (hd : p.hsDone = false) : (pumpRead.go cfg p a).lost = p.lost := by
+  induction a generalizing p with
+  | nil => rfl
+  | cons it rest ih =>
+    cases it with
+    | hs => simp only [pumpRead.go]; exact ih p hd
+    | hsFinal => simp only [pumpRead.go]; rw [appLoop_lost]
+    | app d => simp [pumpRead.go]
+    | closeNotify => simp [pumpRead.go]
+    | bad => simp [pumpRead.go]
+
+/-- C07 at the pump: how the TLS items are grouped into two TCP reads is not observable — including the
+    read that completes the handshake being coalesced with application data -/
+theorem read_merge (cfg : Cfg) (p : PSt) (hp : PInv cfg p) (a b : List Item) :
+    (pumpRead cfg (pumpRead cfg p a) b).obs = (pumpRead cfg p (a ++ b)).obs := by
+  by_cases hd : p.hsDone = true
+  · exact appRead_merge cfg p hp hd a b
+  · have hd' : p.hsDone = false := by simpa using hd
+    by_cases hlc : p.lost = true ∨ p.tcpClosed = true
+    · have h1 : ∀ x, pumpRead cfg p x = p := by intro x; simp only [pumpRead]; rw [if_pos hlc]
+      rw [h1 a, h1 (a ++ b), h1 b]
+    · have hn : p.inner = none := by
+        cases hi : p.inner with
+        | none => rfl
+        | some i => have := hp.innerAfterHs (by simp [hi]); simp [hd'] at this
+      have e1 : ∀ x, pumpRead cfg p x = pumpRead.go cfg p x := by
+        intro x; simp only [pumpRead]; rw [if_neg hlc, if_neg hd]
+      rw [e1 a, e1 (a ++ b)]
+      induction a with
+      | nil => simp only [pumpRead.go, List.nil_append]; rw [e1 b]
+      | cons it rest ih =>
+        cases it with
+        | hs => simp only [pumpRead.go, List.cons_append]; exact ih
+        | hsFinal =>
+          simp only [pumpRead.go, List.cons_append]
+          -- from here on it is the application-phase statement for the freshly created inner protocol
+          let p0 : PSt := { p with hsDone := true, hsTimer := false, inner := some {} }
+          have hp0 : PInv cfg p0 :=
+            ⟨by intro j hj; simp only [p0, Option.some.injEq] at hj; subst hj; exact init_all cfg, by intro _; rfl, by intro hh; simp [p0] at hh⟩
+          have hl0 : ¬ (p0.lost = true ∨ p0.tcpClosed = true) := by simpa [p0] using hlc
+          have e0 : ∀ x, pumpRead cfg p0 x = appLoop cfg p0 x := by
+            intro x; simp only [pumpRead]; rw [if_neg hl0, if_pos rfl]
+          have := appRead_merge cfg p0 hp0 rfl rest b
+          rw [e0 rest, e0 (rest ++ b)] at this
+          exact this
+        | app d =>
+          simp only [pumpRead.go, List.cons_append]
+          simp [pumpRead]
+        | closeNotify =>
+          simp only [pumpRead.go, List.cons_append]
+          simp [pumpRead]
+        | bad =>
+          simp only [pumpRead.go, List.cons_append]
+          simp [pumpRead]
+
+/-- … and any number of reads: feeding the reads one by one is observationally the same as one read carrying
+    all their items -/
+theorem reads_merge (cfg : Cfg) (reads : List (List Item)) (p : PSt) (hp : PInv cfg p) :
+    (reads.foldl (pumpRead cfg) p).obs = (pumpRead cfg p reads.flatten).obs := by
+  induction reads generalizing p with
+  | nil =>
+    simp only [List.foldl_nil, List.flatten_nil]
+    simp only [pumpRead]
+    split
+    · rfl
+    · split
+      · simp [appLoop]
+      · simp [pumpRead.go]
+  | cons r rest ih =>
+    simp only [List.foldl_cons, List.flatten_cons]
+    have hp1 : PInv cfg (pumpRead cfg p r) := pumpStep_pinv cfg p (.read r) hp
+    rw [ih _ hp1, read_merge cfg p hp r rest.flatten]
 end Srv
